@@ -27,11 +27,29 @@
                                           `raw` sends exactly the given LUN / NetFn / bytes and prints the
                                           reply so that it reads back
   * `errors_exit_nonzero`                 completion codes and timeouts end the tool with a message and a
-                                          non-zero status
+                                          non-zero status (today's `except` clauses)
+  * `error_classes_complete`, `all_errors_exit_nonzero`, `main_reports_every_failure`
+                                          for EVERY exception class of pyipmi/errors.py and the transport
+                                          time-out (`socket.timeout`), raised by the session set-up, a request
+                                          or the session tear-down: message + non-zero status — under the
+                                          executable hypotheses `exitsCover` / `closeInside` that the driver
+                                          evaluates on today's source on every run
+  * `errors_asShipped_counterexample`, `close_asShipped_counterexample`
+                                          as shipped ten of the twelve failure classes leave `main` as a
+                                          traceback, and an exception of `ipmi.close()` replaces even a
+                                          reported failure
+  * `hex_literal_needs_base0`, `numeric_arguments_decimal_and_hex`, `numeric_arguments_accept_hex`,
+    `argConvs_asShipped_counterexample`   `int(s)` rejects every `0x…` literal, `int(s, 0)` reads decimal and
+                                          hex; as shipped six handler arguments and `-b` use `int(s)`
+  * `portstate_no_python_error`, `sdr_show_no_python_error`, `sensor_values_no_python_error`, `lin_domain`
+    (+ `…_asShipped_counterexample`)      the printing handlers on a channel without link, on SDR types
+                                          without ID string / entity, on non-linear sensors outside the
+                                          domain of their function
 -/
 import PyIpmi.Lemmas.Cli
 import PyIpmi.Lemmas.CliInt
 import PyIpmi.Lemmas.CliAsShipped
+import PyIpmi.Lemmas.CliExit
 import PyIpmi.Gen.Cli
 namespace PyIpmi.Props.C20
 open PyIpmi PyIpmi.Cli
@@ -287,9 +305,158 @@ theorem hex_roundtrip (bs : List Nat) (h : ∀ b ∈ bs, b < 256) :
 
 /-- a BMC completion code or a timeout ends the tool with a message and a non-zero status
 (today's `except` clauses) -/
-theorem errors_exit_nonzero {α} (o : Outcome α) (ho : (∃ c, o = .ccError c) ∨ o = .timeoutError) :
-    ∃ r, exitOf Gen.Cli.exits o = some r ∧ r.status ≠ 0 ∧ r.message ≠ [] :=
-  exit_of_wf Gen.Cli.exits (by decide +kernel) o ho
+theorem errors_exit_nonzero (e : Raised) (he : e = .lib .completionCodeError ∨ e = .lib .ipmiTimeoutError)
+    (i : ExcInfo) :
+    ∃ r, exitOf Gen.Cli.exits e i = some r ∧ r.status ≠ 0 ∧ r.message ≠ [] :=
+  exit_of_wf Gen.Cli.exits (by decide +kernel) e he i
+
+/-- the enumeration `LibErr` is exactly today's `pyipmi/errors.py` (a class added there breaks this) -/
+theorem error_classes_complete : Gen.Cli.errorClasses = LibErr.all.map LibErr.className := by decide +kernel
+
+/-- EVERY failure class — the eleven exception classes of pyipmi/errors.py and the transport time-out — ends
+the tool with a message and a non-zero status, provided today's clauses cover them (`exitsCover`, evaluated
+on today's source by the driver on every run: `probe`). -/
+theorem all_errors_exit_nonzero (hc : exitsCover Gen.Cli.exits = true) (e : Raised)
+    (he : e.isFailure = true) (i : ExcInfo) :
+    ∃ r, exitOf Gen.Cli.exits e i = some r ∧ r.status ≠ 0 ∧ r.message ≠ [] :=
+  exit_of_cover Gen.Cli.exits hc e he i
+
+/-- … wherever it is raised: by `ipmi.open()` / the handler (`body`), by `ipmi.close()` (`close`), or both —
+provided `ipmi.close()` sits inside the try that carries the clauses (`closeInside`, read off today's source). -/
+theorem main_reports_every_failure (hc : exitsCover Gen.Cli.exits = true)
+    (hs : Gen.Cli.shape.closeInside = true) (body close : Option (Raised × ExcInfo))
+    (hb : ∀ p, body = some p → p.1.isFailure = true) (hcl : ∀ p, close = some p → p.1.isFailure = true)
+    (hsome : body.isSome = true ∨ close.isSome = true) :
+    (mainEnd Gen.Cli.shape.closeInside Gen.Cli.exits body close).reported = true := by
+  rw [hs]
+  exact mainEnd_reports Gen.Cli.exits hc body close hb hcl hsome
+
+/-- As shipped the clause is FALSE for ten of the twelve failure classes: they leave `main` as an exception. -/
+theorem errors_asShipped_counterexample :
+    escaping AsShipped.exits = [.lib .decodingError, .lib .encodingError, .lib .notSupportedError,
+      .lib .descriptionError, .lib .retryError, .lib .dataNotFound, .lib .hpmError,
+      .lib .ipmiConnectionError, .lib .ipmiLongPasswordError, .socketTimeout]
+    ∧ ∀ e ∈ escaping AsShipped.exits, ∀ i, handleExc AsShipped.exits e i = .raises e none := by
+  refine ⟨by decide +kernel, ?_⟩
+  intro e he i
+  apply escapes_of_no_clause
+  revert e
+  decide +kernel
+
+/-- As shipped `ipmi.close()` is in the `finally` of the try that carries the clauses: whatever the clauses
+are, a failure of the session tear-down leaves `main` as an exception — e.g. the retry error of a Close
+Session that is not answered replaces the exit status of a completion code that had just been reported. -/
+theorem close_asShipped_counterexample :
+    AsShipped.shape.closeInside = false
+    ∧ (∀ cl body f i, ∃ printed, mainEnd AsShipped.shape.closeInside cl body (some (f, i)) = .raises f printed)
+    ∧ mainEnd AsShipped.shape.closeInside AsShipped.exits
+        (some (.lib .completionCodeError, { cc := 0xc1 })) (some (.lib .retryError, {}))
+      = .raises (.lib .retryError) (some (ofString "Command returned with completion code 0xc1")) := by
+  refine ⟨rfl, ?_, by decide +kernel⟩
+  intro cl body f i
+  exact mainEnd_asShipped_close_escapes cl body f i
+
+/-! ### numeric arguments in decimal and hex -/
+
+/-- `int(s)` rejects EVERY `0x…` / `0X…` literal -/
+theorem hex_literal_needs_base0 (x : Nat) (hx : x = 120 ∨ x = 88) (cs : Str) :
+    pyInt10 (48 :: x :: cs) = none :=
+  pyInt10_rejects_hex x hx cs
+
+/-- an argument converted with `int(args[k], 0)` reads hex literals and decimal literals as their value -/
+theorem numeric_arguments_decimal_and_hex (c : ArgConv) (hc : c.base0 = true) :
+    (∀ (x : Nat) (_ : x = 120 ∨ x = 88) (cs ds : List Nat), All₂ (IsDigitOf 16) cs ds → ds ≠ [] →
+        c.parse (48 :: x :: cs) = some (Int.ofNat (horner 16 ds 0)))
+    ∧ (∀ (cs ds : List Nat), All₂ (IsDigitOf 10) cs ds → ds ≠ [] → (ds.head? ≠ some 0 ∨ ds = [0]) →
+        c.parse cs = some (Int.ofNat (horner 10 ds 0))) := by
+  unfold ArgConv.parse
+  rw [hc]
+  refine ⟨?_, ?_⟩
+  · intro x hx cs ds hds hne
+    have hp : prefixBase x = some 16 := by rcases hx with rfl | rfl <;> rfl
+    exact pyInt0_prefixed x 16 hp cs ds hds hne
+  · intro cs ds hds hne hl
+    exact pyInt_decimal true cs ds hds hne hl
+
+/-- hence every numeric handler argument of today's table reads hex, provided none of today's conversions
+is an `int(args[k])` (`base10Args`, evaluated on today's source by the driver: `probe`) -/
+theorem numeric_arguments_accept_hex (h : base10Args Gen.Cli.argConvs = []) (c : ArgConv)
+    (hc : c ∈ Gen.Cli.argConvs) (x : Nat) (hx : x = 120 ∨ x = 88) (cs ds : List Nat)
+    (hds : All₂ (IsDigitOf 16) cs ds) (hne : ds ≠ []) :
+    c.parse (48 :: x :: cs) = some (Int.ofNat (horner 16 ds 0)) := by
+  have hb : c.base0 = true := by
+    cases hb : c.base0 with
+    | true => rfl
+    | false =>
+      have : (c.entry, c.arg) ∈ base10Args Gen.Cli.argConvs := by
+        unfold base10Args
+        exact List.mem_map.mpr ⟨c, List.mem_filter.mpr ⟨hc, by simp [hb]⟩, rfl⟩
+      rw [h] at this
+      cases this
+  exact (numeric_arguments_decimal_and_hex c hb).1 x hx cs ds hds hne
+
+/-- as shipped: `fru print <id>`, `picmg portstate get <ch> <intf>`, `picmg channel status <ch>`,
+`picmg channel power <ch> …`, `hpm install <file> <component>` and `-b <channel>` convert with `int(s)`,
+so that e.g. `0x0a` ends them with ValueError -/
+theorem argConvs_asShipped_counterexample :
+    base10Args AsShipped.argConvs = [(10, 0), (13, 0), (13, 1), (15, 0), (17, 0), (21, 1)]
+    ∧ base10Opts AsShipped.shape.rules = [98]
+    ∧ ∀ c ∈ AsShipped.argConvs, c.base0 = false → c.parse (ofString "0x0a") = none := by
+  refine ⟨by decide +kernel, by decide +kernel, ?_⟩
+  intro c _ hb
+  unfold ArgConv.parse
+  rw [hb]
+  exact pyInt10_rejects_hex 120 (.inl rfl) _
+
+/-! ### the printing handlers on what a conforming BMC may answer -/
+
+/-- `picmg portstate get` / `getall`: a channel with or without link does not end in a Python error, provided
+`print_link_state` tolerates `None` (read off today's source) -/
+theorem portstate_no_python_error (h : Gen.Cli.handlers.linkNoneGuard = true) (p : Spec.Cli.PortState) :
+    linkStateRaises Gen.Cli.handlers p.hasLink = none := by
+  unfold linkStateRaises; rw [h]; simp
+
+theorem portstate_asShipped_counterexample :
+    linkStateRaises AsShipped.handlers Spec.Cli.PortState.noLink.hasLink = some "AttributeError" := by
+  decide +kernel
+
+/-- `sdr show` / `sdr showall`: a record of ANY type of IPMI v2.0 ch. 43 — whatever attributes the library's
+class for it has — does not end in a Python error, provided both header lines are guarded -/
+theorem sdr_show_no_python_error (h1 : Gen.Cli.handlers.idStringGuard = true)
+    (h2 : Gen.Cli.handlers.entityGuard = true) (hasId hasEnt : Bool) :
+    sdrShowRaises Gen.Cli.handlers hasId hasEnt = none := by
+  unfold sdrShowRaises; rw [h1, h2]; simp
+
+/-- as shipped: AttributeError for exactly the record types whose class has no ID string / entity -/
+theorem sdr_show_asShipped_counterexample :
+    (Spec.Cli.sdrRecordTypes.filter fun t =>
+        (sdrShowRaises AsShipped.handlers (sdrAttrs AsShipped.sdrClasses AsShipped.sdrDefault t.1).1
+          (sdrAttrs AsShipped.sdrClasses AsShipped.sdrDefault t.1).2).isSome).map (·.1)
+      = [0x08, 0x09, 0x10, 0x13, 0x14, 0xC0] := by decide +kernel
+
+/-- the model of the linearisation functions raises exactly outside the domain the specification gives -/
+theorem lin_domain :
+    Spec.Cli.Lin.all.all (fun l => Spec.Cli.Sign.all.all fun s =>
+      (linRaises l.code (signOfSpec s)).isNone == l.defined s) = true :=
+  linRaises_iff_undefined
+
+/-- `sdr list` / `sdr show` / `sdr showall`: no reading or threshold of any linearisation and sign ends the
+command with a Python error, provided the command catches ValueError and ArithmeticError (or wider) between
+the conversion and `main` (read off today's source) -/
+theorem sensor_values_no_python_error (cmd : String)
+    (h : catchesArithmetic (catchOf Gen.Cli.handlers cmd) = true) (code : Nat) (s : Sign) :
+    cellRaises (catchOf Gen.Cli.handlers cmd) code s = none :=
+  cellRaises_none _ h code s
+
+/-- as shipped: 1/x of 0 ends all three commands, ln / log of 0 ends `sdr list` (the other two print an
+empty line instead of the record) -/
+theorem sensor_values_asShipped_counterexample :
+    cellRaises (catchOf AsShipped.handlers "sdr list") Spec.Cli.Lin.reciprocal.code .zero = some "ZeroDivisionError"
+    ∧ cellRaises (catchOf AsShipped.handlers "sdr list") Spec.Cli.Lin.ln.code .zero = some "ValueError"
+    ∧ cellRaises (catchOf AsShipped.handlers "sdr show") Spec.Cli.Lin.reciprocal.code .zero = some "ZeroDivisionError"
+    ∧ cellRaises (catchOf AsShipped.handlers "sdr showall") Spec.Cli.Lin.reciprocal.code .zero = some "ZeroDivisionError"
+    ∧ cellRaises (catchOf AsShipped.handlers "sdr show") Spec.Cli.Lin.ln.code .zero = none := by
+  decide +kernel
 
 /-! ### non-vacuity: concrete, non-trivial objects meeting the hypotheses -/
 
@@ -313,8 +480,28 @@ example : prefixBase 120 = some 16 ∧ All₂ (IsDigitOf 16) [digitChar 15, digi
 example : pyInt0 (ofString "0xfE") = some 254 := by decide +kernel
 example : cmdRaw [ofString "lun", ofString "1", ofString "0x06", ofString "1", ofString "0xff"]
     = .request 1 6 [1, 255] := by decide +kernel
-example : exitOf Gen.Cli.exits (Outcome.ccError 0xc1 : Outcome Unit)
+example : exitOf Gen.Cli.exits (.lib .completionCodeError) { cc := 0xc1 }
     = some ⟨1, ofString "Command returned with completion code 0xc1"⟩ := by decide +kernel
+-- the hypotheses of the error theorems are satisfiable: the clauses and structure of the repaired `main`
+private def demoExits : List ExitClause := [
+  ⟨[.lib .completionCodeError], some (.hex2cc (ofString "Command returned with completion code 0x")), 1⟩,
+  ⟨[.lib .ipmiTimeoutError, .socketTimeout], some (.lit (ofString "Command timed out")), 1⟩,
+  ⟨[.lib .retryError, .lib .hpmError, .lib .ipmiConnectionError, .lib .ipmiLongPasswordError,
+    .lib .decodingError, .lib .encodingError, .lib .notSupportedError, .lib .descriptionError,
+    .lib .dataNotFound], some (.reprExc (ofString "Command failed: ")), 1⟩,
+  ⟨[.keyboardInterrupt], none, 1⟩]
+example : exitsCover demoExits = true := by decide +kernel
+example : mainEnd true demoExits (some (.lib .completionCodeError, { cc := 0xc1 })) (some (.lib .retryError,
+      { repr := ofString "RetryError()" }))
+    = .exits 1 (ofString "Command failed: RetryError()") := by decide +kernel
+example : mainEnd true demoExits none (some (.socketTimeout, {})) = .exits 1 (ofString "Command timed out") := by
+  decide +kernel
+example : (⟨10, 0, true⟩ : ArgConv).parse (ofString "0x0a") = some 10
+    ∧ (⟨10, 0, false⟩ : ArgConv).parse (ofString "0x0a") = none := by decide +kernel
+example : catchesArithmetic ["ValueError", "ArithmeticError"] = true
+    ∧ cellRaises ["ValueError", "ArithmeticError"] Spec.Cli.Lin.reciprocal.code .zero = none := by decide +kernel
+example : sdrShowRaises ⟨true, true, true, []⟩ false false = none
+    ∧ sdrShowRaises ⟨true, false, true, []⟩ false true = some "AttributeError" := by decide +kernel
 -- a table with a shadowed entry is rejected by the side condition
 example : prefixFree [⟨ofString "bmc", [ofString "bmc"], 0, []⟩,
     ⟨ofString "bmc info", [ofString "bmc", ofString "info"], 0, []⟩] = false := by decide +kernel
